@@ -666,20 +666,28 @@ def _judge(acc, mol, b, run, cache, do_sigma=True):
     if stag_exit:
         acc.m("stagnation_exits")
 
-    def mech(clause):
+    def mech(clause, value=None):
+        """deterministic mechanism classifier over the witness"""
         if sig_bad:
-            return "sigma-build-differs-from-dense-%s" % solver
-        if clause == "residual-above-tol" and stag_exit:
-            return "residual-above-tol-stagnation-exit-%s" % solver
+            return "sigma-build-differs-from-dense"
+        startclass = "amplitude-reuse" if start.startswith("reuse") else start
+        if clause == "residual-above-tol":
+            if not stag_exit:
+                return "residual-above-tol-without-stagnation-exit-%s" % startclass
+            # natural scale of the stagnation rule: corrections r/(E-d) are dropped below vector_tol, so |r| up to about
+            # vector_tol * max|E-d| passes silently (vector_tol = 0.01 sqrt(nov) tol in CIS, 0.02 tol in RPA)
+            d = (ref["d"]["e"][ref["virt"]][None, :] - ref["d"]["e"][ref["occ"]][:, None]).ravel()
+            dmax = float(np.max(np.abs(E[:, None] - d[None, :])))
+            scale = (0.02 if xm == "rpa" else 0.01 * math.sqrt(nov)) * dmax
+            wit["stagnation_scale_over_tol"] = scale
+            if value is not None and value <= 2.0 * max(scale, 1.0) * tol:
+                return "davidson-stagnation-exit-residual-above-tol"
+            return "davidson-stagnation-exit-residual-far-above-tol"
         if clause == "root-skipped":
-            from scipy.sparse.csgraph import connected_components
-            Aabs = np.abs(ref["A"]) > 1e-7
-            if xm == "rpa":
-                Aabs |= np.abs(ref["B"]) > 1e-7
-            nblk = connected_components(Aabs, directed=False)[0]
-            wit["symmetry_blocks_of_A"] = int(nblk)
-            return "root-skipped-%s-%s-%s" % ("symmetry-blocked" if nblk > 1 else "generic", solver, start)
-        return "%s-%s-%s" % (clause, solver, start)
+            sym = _is_symmetric(ref["d"]["Z"], ref["d"]["X"])
+            wit["geometry_symmetric"] = bool(sym)
+            return "davidson-root-skipped-%s-geometry-%s" % ("symmetric" if sym else "asymmetric", startclass)
+        return "%s-%s-%s" % (clause, solver, startclass)
 
     wit = {"label": run["label"], "molecule_in_batch": b, "tol": tol, "n_states": n_req, "nov": nov, "window": window,
            "solver": solver, "start": start, "davidson_sigma_builds": run.get("iters"),
@@ -736,7 +744,7 @@ def _judge(acc, mol, b, run, cache, do_sigma=True):
         kworst = int(np.argmax(rinf))
         acc.note_max("cis residual/tol after %s" % ("stagnation exit" if stag_exit else "residual-criterion exit"), rinf[kworst] / tol)
         if acc.margin("cis_residual", rinf[kworst], RES_ALLOW * tol + RES_ABS):
-            acc.v("residual-above-tol", mech("residual-above-tol"), root=kworst + 1, residual_inf=float(rinf[kworst]),
+            acc.v("residual-above-tol", mech("residual-above-tol", float(rinf[kworst])), root=kworst + 1, residual_inf=float(rinf[kworst]),
                   bound=RES_ALLOW * tol + RES_ABS, all_residuals=rinf.tolist(), **wit)
         # ---- eigenvectors inside the dense eigenspace of their (possibly degenerate) level
         for k in range(m):
@@ -788,11 +796,41 @@ def _judge(acc, mol, b, run, cache, do_sigma=True):
         kworst = int(np.argmax(rinf))
         acc.note_max("rpa residual/tol after %s" % ("stagnation exit" if stag_exit else "residual-criterion exit"), rinf[kworst] / tol)
         if acc.margin("rpa_residual", rinf[kworst], RES_ALLOW * tol + RES_ABS):
-            acc.v("residual-above-tol", mech("residual-above-tol"), root=kworst + 1, residual_inf=float(rinf[kworst]),
+            acc.v("residual-above-tol", mech("residual-above-tol", float(rinf[kworst])), root=kworst + 1, residual_inf=float(rinf[kworst]),
                   bound=RES_ALLOW * tol + RES_ABS, all_residuals=rinf.tolist(), **wit)
         if int((np.abs(om[:m, None] - om[None, :]) <= 1e-6).sum()) > m:
             acc.m("degenerate_roots_checked")
     return rec
+
+
+def _is_symmetric(Z, X, tol=1e-4):
+    """does the nuclear framework have a non-trivial point-group operation?  (degenerate principal moments, or one of
+    the seven sign-flip operations in the principal-axis frame maps the atoms onto themselves)"""
+    Z = np.asarray(Z, float)
+    X = np.asarray(X, float)
+    X = X - (Z[:, None] * X).sum(0) / Z.sum()
+    T = sum(z * ((x @ x) * np.eye(3) - np.outer(x, x)) for z, x in zip(Z, X))
+    w, V = np.linalg.eigh(T)
+    scale = max(w.max(), 1e-12)
+    if min(abs(w[1] - w[0]), abs(w[2] - w[1])) <= 1e-6 * scale:
+        return True
+    Xp = X @ V
+    for sx in (1, -1):
+        for sy in (1, -1):
+            for sz in (1, -1):
+                if (sx, sy, sz) == (1, 1, 1):
+                    continue
+                Y = Xp * np.array([sx, sy, sz])
+                ok = True
+                for i in range(len(Z)):
+                    dist = np.linalg.norm(Xp - Y[i], axis=1)
+                    dist[Z != Z[i]] = 9e9
+                    if dist.min() > tol:
+                        ok = False
+                        break
+                if ok:
+                    return True
+    return False
 
 
 def _levels(lam, m, sep):
@@ -960,7 +998,10 @@ def _seq(case, acc):
                 if mode != "no-reuse":
                     amp = mol.cis_amplitudes
                     if xm == "rpa":
-                        amp = amp[0]      # the solver takes X-shaped start vectors; passing the (2,...) pair raises
+                        # the solver takes orthonormal X-shaped start vectors (passing the stored (2,...) pair raises):
+                        # orthonormalise the previous X amplitudes
+                        Q, _ = torch.linalg.qr(amp[0][:, :n_req].transpose(1, 2))
+                        amp = Q.transpose(1, 2).contiguous()
                     kw["cis_amp"] = amp[:, :n_req]
             info = _call(es, mol, **kw)
             if info["raised"]:
@@ -972,7 +1013,7 @@ def _seq(case, acc):
             if t > 0 and mode != "no-reuse":
                 acc.m("reuse_solves")
             rec = _judge(acc, mol, 0, {"xm": xm, "tol": tol, "n_req": n_req, "solver": solver,
-                                       "start": mode if t > 0 else "default-guess",
+                                       "start": mode if (t > 0 and mode != "no-reuse") else "default-guess",
                                        "label": "point %d of sequence, %s" % (t, mode), "iters": info["iters"], "stag": info["stagnation"]}, {},
                          do_sigma=False)
             traj.append(rec["E"][:n_req].tolist())
